@@ -155,6 +155,30 @@ class Run:
         self.undecided.append((name, reason))
 
     # ------------------------------------------------------------ finish
+    def _link_inputs(self):
+        """A refuted PROVED-class obligation without a replayable input borrows the concrete failing input that the
+        bounded stand-in of the same function found in this run (DESIGN 2.1)."""
+        def fn(ob):
+            return ob.split("/")[1] if ob.count("/") >= 2 else ob
+        for v in self.violations:
+            if v["found_input"]:
+                continue
+            for w in self.violations:
+                if w["found_input"] and fn(w["obligation"]) == fn(v["obligation"]):
+                    try:
+                        with open(v["path"]) as f:
+                            doc = json.load(f)
+                        with open(w["path"]) as f:
+                            other = json.load(f)
+                        doc["concrete_input_from_bounded"] = dict(obligation=other["obligation"], replay=other["replay"], file=w["path"])
+                        doc["found_input"] = True
+                        with open(v["path"], "w") as f:
+                            json.dump(doc, f, indent=1)
+                        v["found_input"] = True
+                    except Exception:  # noqa: BLE001
+                        pass
+                    break
+
     def lock_missing(self):
         p = os.path.join(VERIF, "obligations.lock")
         if not os.path.exists(p):
@@ -171,6 +195,7 @@ class Run:
                 # a generator that silently produces fewer VCs is a checker crash, not a pass (DESIGN 2.2 guard i)
                 print(f"CHECKER-CRASH property={self.pid}: {len(missing)} locked obligations were not generated: {missing[:6]}")
                 return EXIT_CRASH
+        self._link_inputs()
         wall = time.perf_counter() - self.t0
         n_ob = len(self.obligations)
         n_dis = sum(1 for o in self.obligations if o["verdict"] == "proved")
